@@ -95,7 +95,13 @@ type Object struct {
 	Pre    bool       // existed at entry of the function under verification (or global)
 	Global bool
 	Dummy  bool
+	// Nested: for array objects whose element type has slice-typed fields: one shared backing object per
+	// field path.  The slice stored in element i occupies cells [i<<nestShift, i<<nestShift+cap) of it.
+	Nested map[string]*Object
 }
+
+// nestShift: slices stored inside array elements are assumed shorter than 2^nestShift-1 elements.
+const nestShift = 21
 
 func (o *Object) String() string { return fmt.Sprintf("obj%d(%s)", o.ID, o.Name) }
 
@@ -305,6 +311,29 @@ type leafInfo struct {
 	Sort Sort
 }
 
+// nestedPaths lists the slice-typed fields of an element type (path key -> slice type).
+type nestedInfo struct {
+	Path []int
+	Key  string
+	T    *types.Slice
+}
+
+func nestedPaths(t types.Type) (out []nestedInfo) {
+	var rec func(t types.Type, p []int)
+	rec = func(t types.Type, p []int) {
+		switch u := t.Underlying().(type) {
+		case *types.Struct:
+			for i := 0; i < u.NumFields(); i++ {
+				rec(u.Field(i).Type(), append(p, i))
+			}
+		case *types.Slice:
+			out = append(out, nestedInfo{Path: append([]int(nil), p...), Key: pathKey(p), T: u})
+		}
+	}
+	rec(t, nil)
+	return
+}
+
 func leafPaths(t types.Type) (out []leafInfo, ok bool) {
 	ok = true
 	var rec func(t types.Type, p []int)
@@ -324,6 +353,14 @@ func leafPaths(t types.Type) (out []leafInfo, ok bool) {
 				s    string
 				sort Sort
 			}{{"#tag", SInt}, {"#id", SInt}, {"#bits", BV(64)}, {"#str", SInt}} {
+				out = append(out, leafInfo{Path: append([]int(nil), p...), Key: pathKey(p) + suf.s, T: t, Sort: suf.sort})
+			}
+		case *types.Slice:
+			// a slice header inside an array element: three scalar leaves; the cells live in Object.Nested
+			for _, suf := range []struct {
+				s    string
+				sort Sort
+			}{{"#len", BV(64)}, {"#cap", BV(64)}, {"#isnil", SBool}} {
 				out = append(out, leafInfo{Path: append([]int(nil), p...), Key: pathKey(p) + suf.s, T: t, Sort: suf.sort})
 			}
 		default:
